@@ -509,6 +509,17 @@ def attrib(F, res):
         b_src = _validity_field(F, cv, duv, s["rv"]["ops"][1])
         if a_src == {"since"} and b_src == {"until"}:
             good = True
+    # ... or as a struct of the compiler crate with one field per bound (`ValidityWindow { validity_interval_start, ttl }`): the
+    # field that carries `since` / `until` is then whatever the body reads (checked below by field name)
+    comp = {}
+    if not tup:
+        for bi, si, s in mir.stmts(cv):
+            rv_ = s["rv"]
+            if rv_["k"] == "agg" and (rv_.get("adt") or "").startswith("tx3_cardano::") and len(rv_.get("fields") or ()) == 2 and bi in mir.live_blocks(cv):
+                for fld, op_ in zip(rv_["fields"], rv_["ops"]):
+                    comp.setdefault("." + fld, set()).update(_validity_field(F, cv, duv, op_) | e9.slice_adt_fields(F, cv, op_, "::Validity"))
+        if sorted(map(sorted, comp.values())) == [["since"], ["until"]]:
+            good = True
     key = "compile_validity -> (since, until)"
     n += 1
     if good:
@@ -524,6 +535,9 @@ def attrib(F, res):
         o = mir.provenance(tb, dub, rv["ops"][rv["fields"].index(tf)])
         key = "compile_tx_body -> TransactionBody.%s" % tf
         okk = any(x.kind == "call" and x.callee == cvp and idx in x.proj for x in o)
+        if comp:
+            want_v = "since" if idx == ".0" else "until"
+            okk = any(x.kind == "call" and x.callee == cvp and x.proj and comp.get(x.proj[-1]) == {want_v} for x in o)
         if okk:
             res.add([ok("ATTRIB", key, where(tb), "component %s of compile_validity's result" % idx)])
         else:
